@@ -414,15 +414,30 @@ def _profile(spec, url, labels):
     before which) one of the containers `labels` changed"""
     from props import c13_modstate as M
 
+    import time
+
     rec = []
-    state = {"n": 0, "objs": None, "last": None}
+    state = {"n": 0, "objs": None, "last": None, "spent": 0.0, "every": 1}
     hits = []
 
     def probe(t, k):
+        # re-fingerprinting a container that holds whole datasets at each of 20 k lines can take minutes: once 10 s
+        # have gone into fingerprints the probe looks at every 8th line, after 25 s at every 64th (a hit then means
+        # "changed within the last lines"; the static function targeting does not depend on the probe)
+        state["n"] += 1
+        if state["every"] > 1 and state["n"] % state["every"]:
+            return
+        t0 = time.time()
+        try:
+            _probe(t, k)
+        finally:
+            state["spent"] += time.time() - t0
+            state["every"] = 64 if state["spent"] > 25 else 8 if state["spent"] > 10 else 1
+
+    def _probe(t, k):
         if state["objs"] is None or state["n"] % 64 == 0:
             r = M.roots()
             state["objs"] = [r.get(l) for l in labels]
-        state["n"] += 1
         cur = tuple(M.fp(o) if o is not None else "<absent>" for o in state["objs"])
         if state["last"] is not None and cur != state["last"]:
             hits.append(k)
@@ -481,7 +496,8 @@ def targeted(ctx, rng, breaks, search=False, seen=()):
     cap = 20000 if search else 6000          # targeted schedules per container
     for label in sorted(by):
         funcs = set(M.functions_naming([label]))
-        groups = sorted(by[label].values(), key=lambda g: -len(g[1]))
+        # (the dataset with the most writers first, but beyond 30 writers the smaller dataset: its runs are shorter)
+        groups = sorted(by[label].values(), key=lambda g: (-min(len(g[1]), 30), len(repr(g[0]))))
         pairs = []          # (spec, a, b, both roles?)
         cands = []
         for spec, vals in groups:
